@@ -350,6 +350,14 @@ class IOPort(BaseIOPort):
     def _receive(self, block=True):
         return self.input.receive(block=block)
 
+    def receive(self, block=True):
+        # The pending message queue is shared with the input port, so
+        # the check-and-pop must happen under the input port's lock.
+        # (The wrapper itself has no lock.)
+        return self.input.receive(block=block)
+
+    receive.__doc__ = BaseInput.receive.__doc__
+
 
 class EchoPort(BaseIOPort):
     def _send(self, message):
